@@ -11,6 +11,7 @@ import (
 	"syscall"
 	"time"
 	"unsafe"
+	"verif/model"
 
 	"verif/simkit"
 )
@@ -203,6 +204,7 @@ func workerMain(a workerArgs) int {
 		return 2
 	}
 	startWatchdog(prog, hangSeconds*time.Second)
+	model.Beat = prog.beat
 
 	stats := simkit.NewStats()
 	res := &workerResult{Worker: a.W, Stats: stats, MismatchRun: -1}
@@ -339,6 +341,7 @@ func replayMain(path, progressPath, traceOut string) int {
 	}
 	prog.setRun(rf.Run)
 	startWatchdog(prog, hangSeconds*time.Second)
+	model.Beat = prog.beat
 	if len(rf.Explicit) > 0 {
 		sr, ok := cfg.Engine.(simkit.ScenarioReplayer)
 		if !ok {
